@@ -204,6 +204,10 @@ PACKABLE = ("text", "icon")
 FLOW_ONLY = (*FLOW_LEAVES, "grid", "box")
 BOX_ONLY = ("fill", "frame", "filler", "over", "lb")
 NO_MOVE = ("frame", "lb", "over", "fill")  # kinds without move_cursor_to_coords
+# leaves that move their own cursor to the cell they accept (a Button / CheckBox / SelectableIcon keeps it where
+# the icon's cursor_position says, whatever row was asked for: nothing is asserted about their row)
+ROW_EXACT = ("edit",)
+KEYS = ["up", "down", "left", "right", "home", "end", "page up", "page down", "x", "\u4e16", " ", "enter", "backspace", "delete"]
 ALIGNS = ["left", "center", "right"]
 VALIGNS = ["top", "middle", "bottom"]
 WRAPS = ["any", "space", "clip"]
@@ -991,6 +995,14 @@ class Harness:
                     f"after {what} == True the root reports cursor {cur!r}; probe {pid} ({kind}, drawn from "
                     f"({left},{top}) at size {psize}) asked for ({c - left},{r - top}) puts it at {tcur!r}, i.e. {want!r}",
                 ), None
+            if kind in ROW_EXACT and cur[1] != r:
+                # the statement itself, no twin involved: "... and afterwards the reported cursor is on the requested row"
+                return Violation(
+                    "move-cursor-requested-row",
+                    f"{what} returned {got!r} but afterwards the root reports its cursor at {cur!r}, not on row {r} "
+                    f"(cell ({c - left},{r - top}) of probe {pid}, {kind} {probe['node']['leaf']!r}, drawn from "
+                    f"({left},{top}) at size {psize})",
+                ), None
         except Violation as v:
             return v, None
         return None, "move:accepted"
@@ -1076,18 +1088,111 @@ class Harness:
             for c in range(ncols):
                 self.send(root, reg, grid, rects, event, button, c, r)
 
-        # history of button-1 presses on the same tree
-        probe_cells = [(c, r) for r in range(nrows) for c in range(ncols) if pid_at(grid, c, r) is not None]
-        for click in self.case.get("clicks") or []:
-            kind, i = int(click[0]) % 2, int(click[1])
-            if kind and probe_cells:
+        # history on the same tree: button-1 presses, content changes of a leaf, keys.  After every step the tree
+        # is asked for its cursor *without rendering*, then drawn again (fit precondition re-established on the new
+        # drawing, else the history ends there) and asked once more.
+        applied = 0
+        for op in self.history():
+            try:
+                what = self.apply(op, root, reg, grid, rects, ncols, nrows)
+            except Discard:
+                break
+            if what is None:
+                continue
+            before = self.ask(root, f"get_cursor_coords ({what}, not rendered since)")
+            try:
+                canv, grid, rects, _sizes = self.draw(root, reg)
+            except Discard:
+                # the changed tree no longer fits its size (or cannot be drawn): outside the property from here on
+                if self.collect is None:
+                    stat("history:ended:unfit")
+                applied = 0  # no drawing of the final state to sweep
+                break
+            applied += 1
+            ncols, nrows = canv.cols(), canv.rows()
+            if before is not None:
+                try:
+                    if before[0] == "exc":
+                        self.report(before[1])
+                    elif before[1] != canv.cursor:
+                        self.report(self.disagree(f"{what}, not rendered since", before[1], canv))
+                    else:
+                        stat("cursor:agree:" + ("none" if before[1] is None else "coords"))
+                except Skip:
+                    pass
+            self.check_cursor(root, canv, f"{what}, rendered")
+
+        # clause 2 again on the state the history ended in
+        if applied and ncols * nrows <= MAX_AREA:
+            for r in range(nrows):
+                for c in range(ncols):
+                    self.send(root, reg, grid, rects, event, button, c, r)
+
+    def history(self):
+        """ops of the case: ["click", kind, i] | ["text", i, what, new] | ["key", i]; the older "clicks" list first"""
+        out = [["click", cl[0], cl[1]] for cl in self.case.get("clicks") or []]
+        out += [list(op) for op in self.case.get("ops") or [] if isinstance(op, (list, tuple)) and op]
+        return out
+
+    def ask(self, root, what):
+        """the cursor the tree reports now, held back (also an exception) until the next drawing passed the fit check"""
+        if not hasattr(root, "get_cursor_coords"):
+            return None
+        try:
+            return ("ok", self.raw(lambda: root.get_cursor_coords(self.size), what))
+        except Violation as v:
+            return ("exc", v)
+
+    def apply(self, op, root, reg, grid, rects, ncols, nrows):
+        """one step of the history on the live tree -> description, or None if the step does not apply"""
+        kind = op[0]
+        if kind == "click":
+            probe_cells = [(c, r) for r in range(nrows) for c in range(ncols) if pid_at(grid, c, r) is not None]
+            how, i = int(op[1]) % 2, int(op[2])
+            if how and probe_cells:
                 c, r = probe_cells[i % len(probe_cells)]
             else:
                 c, r = i % ncols, (i // ncols) % nrows
             self.send(root, reg, grid, rects, "mouse press", 1, c, r)
             stat("click")
-            canv, grid, rects, _sizes = self.draw(root, reg)
-            self.check_cursor(root, canv, f"after button-1 press at ({c},{r})")
+            return f"after button-1 press at ({c},{r})"
+        if kind == "text":
+            # the application changes what a leaf shows (public setters); its rows / natural width may change
+            cands = [(pid, p) for pid, p in enumerate(reg.probes) if not p["bg"] and p["node"]["k"] != "fill"]
+            if not cands:
+                return None
+            pid, p = cands[int(op[1]) % len(cands)]
+            k, w, new = p["node"]["k"], p["w"], str(op[3])
+            if k == "edit":
+                if int(op[2]) % 2:
+                    w.set_caption(new)
+                    setter = "set_caption"
+                else:
+                    w.set_edit_text(new)
+                    setter = "set_edit_text"
+            elif k in ("icon", "text"):
+                w.set_text(new)
+                setter = "set_text"
+            else:
+                w.set_label(new)
+                setter = "set_label"
+            stat("op:text:" + k)
+            return f"after probe {pid} ({k}) .{setter}({new!r})"
+        if kind == "key":
+            # keys reach a widget tree only if its topmost widget is selectable (MainLoop.process_input)
+            if not root.selectable():
+                return None
+            key = KEYS[int(op[1]) % len(KEYS)]
+            try:
+                self.raw(lambda: root.keypress(self.size, key), f"keypress {key!r}")
+            except Violation as v:
+                # what keys do is not this property's: the history ends here
+                if self.collect is None:
+                    stat(f"history:ended:keypress-raises:{v.clause}")
+                raise Discard() from v
+            stat("op:key")
+            return f"after key {key!r}"
+        return None
 
 
 def check_tree(case):
@@ -1240,14 +1345,17 @@ def case_strategy(depth):
         st.tuples(st.just("B"), bx.filter(lambda s: s["k"] != "fill")),
         st.tuples(st.just("F"), fl.filter(lambda s: s["k"] not in FLOW_LEAVES)),
     )
-    clicks = st.lists(st.tuples(st.integers(0, 1), st.integers(0, 2000)).map(list), max_size=4)
+    click = st.tuples(st.just("click"), st.integers(0, 1), st.integers(0, 2000)).map(list)
+    text = st.tuples(st.just("text"), st.integers(0, 11), st.integers(0, 1), _txt).map(list)
+    key = st.tuples(st.just("key"), st.integers(0, len(KEYS) - 1)).map(list)
+    ops = st.lists(st.one_of(click, click, text, text, key), max_size=5)
     return st.builds(
-        lambda rt, dc, dr, ev, cl: {"tree": rt[1], "mode": rt[0], "dc": dc, "dr": dr, "ev": ev, "clicks": cl},
+        lambda rt, dc, dr, ev, ops: {"tree": rt[1], "mode": rt[0], "dc": dc, "dr": dr, "ev": ev, "ops": ops},
         root,
         st.sampled_from([0, 0, 1, 2, 3, 6]),
         st.sampled_from([0, 0, 1, 2, 4]),
         st.integers(0, len(EVENTS) - 1),
-        clicks,
+        ops,
     )
 
 
